@@ -158,6 +158,19 @@ class Effects:
                 out.append((cn, root, cs))
         return out, selfname
 
+    def resolve_alias(self, node, name, selfname):
+        """Follow `x = self` style aliases: returns selfname if ``name`` can only denote self."""
+        seen = set()
+        while name is not None and name != selfname and name not in seen:
+            seen.add(name)
+            b = self.locals(node).get(name, set())
+            al = {x[1] for x in b if x[0] == 'alias'}
+            if len(al) == 1 and len(b) == 1:
+                name = next(iter(al))
+            else:
+                break
+        return name
+
     # ------------------------------------------------------------------ transitive self effects
     def selfeff(self, node, stack=()):
         """Set of (kind, function key, detail) store effects on ``self`` of this function, through self-calls."""
@@ -171,10 +184,10 @@ class Effects:
             self._selfeff[node] = out
             return out
         for e in self.direct(node):
-            if e.root == selfname and e.kind in ('install', 'inplace'):
+            if self.resolve_alias(node, e.root, selfname) == selfname and e.kind in ('install', 'inplace'):
                 out.add((e.kind, node[0], e.detail))
         for (cn, root, cs) in edges:
-            if root == selfname:
+            if root is not None and self.resolve_alias(node, root, selfname) == selfname:
                 out |= self.selfeff(cn, stack + (node,))
         if not stack:
             self._selfeff[node] = out
